@@ -8,7 +8,7 @@ use rten_base::num::AsUsize;
 
 use crate::env::env_flag;
 use crate::graph;
-use crate::graph::{Dimension, Graph, Node, NodeId, RunError, TypedConstant};
+use crate::graph::{Dimension, Graph, Node, NodeId, RunError, TypedConstant, unique_node_ids};
 use crate::operator::{OutputType, OutputTypesContext};
 use crate::value::ValueType;
 
@@ -179,8 +179,10 @@ impl Default for InferShapeOptions {
 pub fn infer_shapes(graph: &Graph, opts: InferShapeOptions) -> Result<InferResult, InferError> {
     let mut symbol_gen = SymbolGen::new();
 
+    // A subgraph may list the same value more than once among its outputs.
+    let output_ids = unique_node_ids(graph.output_ids());
     let ops = graph
-        .execution_plan(graph.input_ids(), graph.output_ids(), Default::default())
+        .execution_plan(graph.input_ids(), &output_ids, Default::default())
         .map_err(InferError::PlanError)?;
 
     // Symbolic shapes (or values) and types of operator outputs processed so far.
